@@ -105,9 +105,11 @@ def jobs(tier):
 def e2_scenarios(tier):
   lifo = dict(kind="lifo", pending=1)
   fifo = dict(kind="fifo", pending=1)
+  # a post made after the publish races with the delivery of the publication (the object's queue may be empty when it arrives)
+  after = dict(kind="lifo", pending=0, post_after=1)
   if tier == "quick":
-    return [(lifo, 30)]
-  return [(lifo, 40), (fifo, 40), (dict(kind="lifo", pending=2), 36)]
+    return [(lifo, 30), (after, 30)]
+  return [(lifo, 40), (fifo, 40), (dict(kind="lifo", pending=2), 36), (after, 40), (dict(kind="lifo", pending=1, post_after=1), 36)]
 
 
 DIFF_KW = dict(kind="lifo", pending=1)
@@ -131,7 +133,7 @@ def e2_signature(spec, r):
     return ("pubsub-raised", "%s; schedule: %s" % (real["errors"], r["trace"]), True)
   log = real["dispatch_log"]
   if spec["kind"] == "deadlock":
-    want = 1 + kw["pending"]
+    want = 1 + kw["pending"] + kw.get("post_after", 0)
     return ("publication-not-dispatched-once:interleaving", "everybody idle: the object dispatched %s (a %s subscription made at run time, %d pending event(s)), queue %s, tokens %d; schedule: %s" % (
       log, kw["kind"], kw["pending"], real["deque"], real["tokens"], r["trace"]), log.count("NEWS") != 1 or len(log) != want)
   if len(set(log)) < len(log):
